@@ -173,6 +173,8 @@ def run_unit(pid, subname, tier, seed, shard, nshards, n_cases, enabled_known, o
                 state["harness"] = f"nontrivial() raised {e!r}"
                 raise HarnessError(state["harness"])
             res["evaluations"] += 1
+            if res["evaluations"] == 1 and not label:
+                res["first_case"] = {"subcheck": subname, "label": None, "case": _trim(case)}
             if label:
                 nt[label] += 1
                 hashes.add(h[:12])
@@ -490,6 +492,8 @@ def main():
             for s_ in r["samples"]:
                 if s_ not in samples and len(samples) < 6:
                     samples.append(s_)
+    if not samples:
+        samples = [r["first_case"] for r in results if r.get("first_case")][:3]
 
     wall = time.time() - t0
     evidence = {
@@ -518,6 +522,7 @@ def main():
             print("HARNESS-ERROR", h)
         print(f"property={pid} harness error: no verdict")
         return 2
+    evidence_ok = True
     try:
         import jsonschema
 
@@ -526,8 +531,10 @@ def main():
     except ImportError:
         pass
     except Exception as e:  # noqa: BLE001
+        evidence_ok = False
         print("HARNESS-ERROR evidence does not validate:", str(e)[:500])
-        return 2
+        if not violations:
+            return 2
     (OUT / "evidence").mkdir(parents=True, exist_ok=True)
     (OUT / "evidence" / f"{pid}.json").write_text(json.dumps(evidence, indent=1, sort_keys=True))
     ninc = sum(sum(ps["inconclusive_by_reason"].values()) for ps in per_sub.values())
